@@ -277,7 +277,7 @@ def run_scenario(scn):
         return None, ("skip", "non_finite_distance")
     if np.any(D < 0) or np.any(DQ < 0):
         return None, ("skip", "negative_distance")
-    if not np.array_equal(D, D.T):
+    if not np.array_equal(D, D.T) and not scn.get("allow_asymmetric"):
         return None, ("skip", "float_matrix_not_bit_symmetric")
     # ---- final clustering episode = last heap
     maxheaps = [s for s in snaps if s["policy"] == "max"]
